@@ -1,5 +1,6 @@
 import DhcpProofs.Lemmas.RawChecksum
 import DhcpProofs.Lemmas.RawRead
+import DhcpProofs.Lemmas.RawOptions
 /-
   C18 — the raw broadcast connection of nclient4 emits well-formed IPv4+UDP
   frames whose checksums verify, and reads exactly the frames addressed to it.
@@ -265,4 +266,36 @@ example :
         .ok [Step.deliver [0xab, 0xcd] [10, 0, 0, 1] 67] := by
   decide
 
+/-- **C18 (read: IPv4 options are no criterion).** Two frames that differ only in the
+octets of their IPv4 options - same fixed header `h` (20 octets, IHL = 5 + options/4),
+options of the same length, same rest - get the same treatment: both skipped, or both
+delivered with the same payload, source address and source port.  A reader that looks
+INTO the options (to drop source-routed datagrams, say) is not this reader. -/
+theorem C18_read_options_irrelevant (bound : Option Addr) (buflen : Nat) (h o o' rest : Bytes)
+    (hh : h.length = 20) (ho : o'.length = o.length) (hl : 4 * (byteAt h 0 % 16) = 20 + o.length)
+    (hfit : 20 + o.length + rest.length ≤ 60 + 8 + buflen) :
+    readFrames bound buflen [h ++ (o ++ rest)] = readFrames bound buflen [h ++ (o' ++ rest)] := by
+  have hne : ∀ x : Bytes, h ++ (x ++ rest) ≠ [] := by
+    intro x hx
+    have := congrArg List.length hx
+    simp [hh] at this
+  rw [C18_read_exact_partial bound buflen [h ++ (o ++ rest)] (by
+        intro f hf; rw [List.mem_singleton] at hf; subst hf
+        exact ⟨hne o, by simp [hh]; omega⟩),
+      C18_read_exact_partial bound buflen [h ++ (o' ++ rest)] (by
+        intro f hf; rw [List.mem_singleton] at hf; subst hf
+        exact ⟨hne o', by simp [hh, ho]; omega⟩)]
+  have key := options_irrelevant h o o' rest hh ho hl (toSpec bound)
+  have hd : delivered buflen (h ++ (o ++ rest)) = delivered buflen (h ++ (o' ++ rest)) := by
+    unfold delivered; rw [key.2]
+  simp only [List.filter_cons, List.filter_nil]
+  by_cases hw : WellFormedForMe (h ++ (o ++ rest)) (toSpec bound)
+  · simp [hw, key.1.mp hw, hd]
+  · have hw' : ¬ WellFormedForMe (h ++ (o' ++ rest)) (toSpec bound) := fun x => hw (key.1.mpr x)
+    simp [hw, hw']
+
+/-- non-vacuity: a frame with IHL 7 and a loose source route in its options, and the
+same frame with no-operation octets instead. -/
+example : 4 * (byteAt ([0x47, 0, 0, 44, 0, 0, 0, 0, 64, 17, 0, 0, 10, 0, 0, 1, 10, 0, 0, 2] : Bytes) 0 % 16) = 20 + ([131, 7, 4, 192, 0, 2, 254, 0] : Bytes).length := by
+  decide
 end Dhcp.Raw
